@@ -179,10 +179,26 @@ func (w *world) runHelpers(c fiber.Ctx) error {
 			c.Set("Content-Disposition", `attachment; filename="`+strings.NewReplacer("\r", "", "\n", "").Replace(arg(a, 0))+`"`)
 		}
 	}
-	if terminal {
-		return nil
+	if !terminal {
+		if err := c.SendString(bodyMarker); err != nil {
+			return err
+		}
 	}
-	return c.SendString(bodyMarker)
+	if w.ends() {
+		// Ctx.End(): "flushes the current response and closes the underlying connection" - what it flushes is the answer
+		// to this request, under the same framing rules as any other (a HEAD request gets no body bytes)
+		return c.End()
+	}
+	return nil
+}
+
+func (w *world) ends() bool {
+	for _, h := range w.helpers {
+		if h.Name == "end" {
+			return true
+		}
+	}
+	return false
 }
 
 // ---- requests --------------------------------------------------------------------------------------------
@@ -488,6 +504,12 @@ func check(c Case) vk.Verdict {
 	if hostileArg {
 		v.Classes = append(v.Classes, "hostile-helper-arg")
 	}
+	if w.ends() && w.ran.Load() > 0 {
+		v.Classes = append(v.Classes, "handler-called-End")
+		if c.Reqs[0].Method == "HEAD" && firstBad > 0 {
+			v.Classes = append(v.Classes, "End-answers-HEAD")
+		}
+	}
 	for _, r := range c.Reqs {
 		if r.Mut != "" {
 			v.Classes = append(v.Classes, "mut:"+r.Mut)
@@ -711,6 +733,10 @@ func genCase(t *rapid.T) Case {
 	for i := 0; i < n; i++ {
 		c.Reqs = append(c.Reqs, genReq(t))
 	}
+	// (drawn last: the handler finishes with Ctx.End() - response flushed by fiber itself, connection closed)
+	if rapid.IntRange(0, 7).Draw(t, "end") == 0 {
+		c.Helpers = append(c.Helpers, Helper{"end", nil})
+	}
 	return c
 }
 
@@ -722,6 +748,13 @@ func FuzzWire(f *testing.F) { propWire.Fuzz(f) }
 // classify: open finding C07-b (= C12-a): the flash cookie written by Redirect().With() is raw msgpack; a message whose
 // key, value or level contains CR, LF or another control byte puts that byte on the wire inside Set-Cookie.
 func classify(c Case, fail string) string {
+	if ended(c) && len(c.Reqs) >= 2 {
+		return classifyEnd(c)
+	}
+	return classifyFlash(c, fail)
+}
+
+func classifyFlash(c Case, fail string) string {
 	if !(strings.Contains(fail, "not a well-formed HTTP/1.1 response stream") || strings.Contains(fail, "net/http client refuses") || strings.Contains(fail, "unexpected response field") || strings.Contains(fail, "body is")) {
 		return ""
 	}
@@ -764,6 +797,44 @@ func classify(c Case, fail string) string {
 		return ""
 	}
 	return "C07-b"
+}
+
+// classifyEnd: open finding C07-p. Ctx.End() writes the current response straight to the connection and closes it, but the
+// server keeps the responses to earlier pipelined requests in its own write buffer until the input runs dry: those are
+// lost, and the client takes End()'s response for the answer to its first request. Signature: the handler calls End(),
+// the connection carries several requests, the same case passes without End(), and every one of its requests passes
+// on a connection of its own with End() (so whatever End() itself writes is well-formed, HEAD included). Where one of
+// those variants fails, it must itself be the other open finding (C07-b) for the case to count as known.
+func classifyEnd(c Case) string {
+	var rest []Helper
+	for _, h := range c.Helpers {
+		if h.Name != "end" {
+			rest = append(rest, h)
+		}
+	}
+	id := "C07-p"
+	variants := []Case{{Config: c.Config, Reqs: c.Reqs, Helpers: rest}}
+	for _, r := range c.Reqs {
+		variants = append(variants, Case{Config: c.Config, Reqs: []Req{r}, Helpers: c.Helpers})
+	}
+	for _, v := range variants {
+		if f := check(v).Fail; f != "" {
+			if classifyFlash(v, f) == "" {
+				return ""
+			}
+			id = "C07-b"
+		}
+	}
+	return id
+}
+
+func ended(c Case) bool {
+	for _, h := range c.Helpers {
+		if h.Name == "end" {
+			return true
+		}
+	}
+	return false
 }
 
 // ---- raw connection bytes -------------------------------------------------------------------------------
